@@ -28,6 +28,8 @@ git -C /repo apply $D/patch.diff || { echo "patch does not apply to /repo"; [ $D
 ./check $P > $D/check.out 2>&1; R=$?
 git -C /repo checkout -- .
 [ $DIRTY -eq 1 ] && git -C /repo stash pop -q
+# evidence/<id>.json is rewritten by every run: refresh it on the unchanged tree
+./check $P > /dev/null 2>&1
 echo "check rc=$R"; grep -E "VIOLATION|KNOWN|OK property" $D/check.out | head -5
 echo "$R" > $D/check.rc
 python3 - "$P" "$N" "$CRATE" "$R" "$*" <<'PY'
